@@ -1,4 +1,4 @@
-import SamVerif.Lemmas.StdMap
+import SamVerif.Lemmas.StdMapOps
 import SamVerif.Model.StdSet
 import SamVerif.Model.StdList
 /-!
@@ -10,11 +10,10 @@ Property theorems only.  Models: `Model/StdMap.lean`, `Model/StdSet.lean`, `Mode
 the `stdops` correspondence (generated samlang driver programs compiled by the real compiler and run
 as wasm/TS vs `Driver/C18.lean`), which compares complete tree shapes after every operation.
 
-The unchanged std code falsifies the full-strength statements for `max`, `exists`, `remove`
-(Map and Set), `Set.diff`, `Map.merge`, `Map.customizedUnion/union`: each has a
-`…_counterexample` (negation with a concrete witness; the witnesses are replayed on the real code
-by vlib/c18.py, findings C18-F1 … F9) and, where proved, a `…_partial` under an explicit decidable
-side condition.
+The std code as first read falsified the statements for `max`, `exists`, `remove` (Map and Set),
+`Set.diff`, `Map.merge`, `Map.customizedUnion/union` (findings C18-F1 … F7); they were repaired by
+`fix:` commits in /repo, the models follow the fixed code, and the former `…_counterexample` /
+`…_partial` pairs are replaced by the full-strength theorems below.
 -/
 
 /-! ## Sequences: every `List` method equals the corresponding operation on a mathematical sequence -/
@@ -291,80 +290,82 @@ theorem boxedCompare_overflow_counterexample :
     ∃ a b : Int, b < a ∧ a - b = 2147483648 ∧ boxedCompare a b < 0 :=
   ⟨2147483647, -1, by decide, by decide, by decide⟩
 
-/-! ### Statements the unchanged std code falsifies -/
+/-! ### `max`, `exists`, `remove`, `split`, `join`, `concat`, `filter`, `partition`
 
-/- Full-strength statement (false):  `∀ t, max t = (abs t).getLast?`. -/
-/-- `max` is not the last binding: `{1,2,3,4}.max() = (3, 30)` (finding C18-F1). -/
-theorem max_refines_counterexample :
-    ∃ t : Tree Int Int, runIns boxedCompare .empty [(1, 10), (2, 20), (3, 30), (4, 40)] = some t ∧
-      max t = some (3, 30) ∧ (abs t).getLast? = some (4, 40) :=
-  ⟨.node 3 2 20 (.leaf 1 10) (.node 2 4 40 (.leaf 3 30) .empty), by decide, by decide, by decide⟩
+History: before the `fix:` commits cf60c34 (max), a34e262 (exists), 296ead9
+(minBindingFromNodeUnsafe) these statements were false on the std code and this file carried
+`max_refines_counterexample` ({1,2,3,4}.max() = 3), `exists_refines_counterexample` (empty map),
+`remove_refines_counterexample` (inserts 10,2,5,11,4,7 then remove 5 = "Bad tree" panic) with
+`_partial` companions; the witnesses now live in corpus/C18 as regression inputs. -/
 
-/-- `max` is right when the root's right child is not a `Node`. -/
-theorem map_max_partial (t : Tree K V) (h : RightSmall t = true) : max t = (abs t).getLast? :=
-  max_partial t h
+/-- `max` is the last binding of the ascending enumeration. -/
+theorem map_max_refines (t : Tree K V) : max t = (abs t).getLast? := max_refines t
 
-/- Full-strength statement (false):  `∀ f t, exists f t = (abs t).any …`. -/
-/-- `exists` answers `true` on the empty map (finding C18-F2). -/
-theorem exists_refines_counterexample :
-    «exists» (fun _ _ => false) (Tree.empty : Tree Int Int) = true ∧
-      (abs (Tree.empty : Tree Int Int)).any (fun _ => false) = false := by decide
+/-- `exists` is `any` over the enumeration. -/
+theorem map_exists_refines (f : K → V → Bool) (t : Tree K V) :
+    «exists» f t = (abs t).any (fun kv => f kv.1 kv.2) := exists_refines f t
 
-theorem map_exists_partial (f : K → V → Bool) (t : Tree K V) (h : NoEmpty t) :
-    «exists» f t = (abs t).any (fun kv => f kv.1 kv.2) := exists_partial f t h
+/-- **`remove` refines finite-map deletion**: never panics on an invariant-satisfying tree,
+re-establishes the invariant, and the result is `m \ {k}`. -/
+theorem remove_refines {cmp : K → K → Int} {rank : K → Int} (hc : Lawful cmp rank) (t : Tree K V)
+    (k : K) (hi : Inv rank t) :
+    ∃ t', remove cmp t k = some t' ∧ Inv rank t' ∧ ∀ p, p ∈ abs t' ↔ (p ∈ abs t ∧ p.1 ≠ k) := by
+  obtain ⟨t', e, b, o, m, _⟩ := remove_spec hc t k hi.1 hi.2
+  exact ⟨t', e, ⟨b, o⟩, m⟩
 
-/- Full-strength statement (false):  `∀ t k, Inv t → ∃ t', remove cmp t k = some t' ∧ …`. -/
-/-- `remove` reaches `Process.panic("Bad tree")` on a tree built by six inserts (finding C18-F3). -/
-theorem remove_refines_counterexample :
-    ∃ t : Tree Int Int,
-      runIns boxedCompare .empty [(10, 0), (2, 0), (5, 0), (11, 0), (4, 0), (7, 0)] = some t ∧
-      remove boxedCompare t 5 = none :=
-  ⟨.node 4 5 0 (.node 2 4 0 (.leaf 2 0) .empty) (.node 3 11 0 (.node 2 7 0 .empty (.leaf 10 0)) .empty),
-    by decide, by decide⟩
+/-- **`join`**: for *any* two balanced trees (no assumption on relative heights) `join` never
+panics, returns a balanced tree, and enumerates `l`, then `(k, v)`, then `r`. -/
+theorem join_refines (l r : Tree K V) (k : K) (v : V) (hl : Bal l) (hr : Bal r) :
+    ∃ t, join l k v r = some t ∧ Bal t ∧ abs t = abs l ++ (k, v) :: abs r := by
+  obtain ⟨t, e, b, a, _⟩ := join_spec l r k v hl hr
+  exact ⟨t, e, b, a⟩
 
-/-- `remove` at a leaf or of an absent key at the root level of a one/zero-element map is right
-(the part of `remove` that does not go through `internalMerge`). -/
-theorem remove_partial {cmp : K → K → Int} {rank : K → Int} (hc : Lawful cmp rank) (k k' : K) (v : V) :
-    remove cmp (Tree.empty : Tree K V) k = some .empty ∧
-      remove cmp (Tree.leaf k' v) k = some (if k = k' then .empty else .leaf k' v) := by
-  have := hc.eq k k'
-  refine ⟨rfl, ?_⟩
-  simp only [remove]
-  by_cases c : cmp k k' = 0 <;> simp [c] <;> grind
+/-- **`concat`** (and `internalMerge`) enumerate `t1` then `t2`. -/
+theorem concat_refines (t1 t2 : Tree K V) (h1 : Bal t1) (h2 : Bal t2) :
+    ∃ t, concat t1 t2 = some t ∧ Bal t ∧ abs t = abs t1 ++ abs t2 := concat_spec t1 t2 h1 h2
 
-/-- `merge` panics (`Invalid state`) when a `Node` receiver is lower than the argument (C18-F7). -/
-theorem merge_refines_counterexample :
-    ∃ a b : Tree Int Int, runIns boxedCompare .empty [(1, 1), (2, 2)] = some a ∧
-      runIns boxedCompare .empty [(10, 0), (20, 0), (30, 0), (40, 0)] = some b ∧
-      merge boxedCompare (fun _ x y => match x with | some x => some x | none => y) 100 a b = some none :=
-  ⟨.node 2 2 2 (.leaf 1 1) .empty, .node 3 20 0 (.leaf 10 0) (.node 2 40 0 (.leaf 30 0) .empty),
-    by decide, by decide, by decide⟩
+/-- **`split`**: the enumeration is cut at `key` into the strictly smaller bindings, the binding of
+`key` (if present) and the strictly larger bindings; both parts are balanced. -/
+theorem split_refines {cmp : K → K → Int} {rank : K → Int} (hc : Lawful cmp rank) (t : Tree K V)
+    (key : K) (hi : Inv rank t) :
+    ∃ l pres r, split cmp t key = some (l, pres, r) ∧ Inv rank l ∧ Inv rank r ∧
+      abs t = abs l ++ midList key pres ++ abs r ∧
+      (∀ p ∈ abs l, rank p.1 < rank key) ∧ (∀ p ∈ abs r, rank key < rank p.1) := by
+  obtain ⟨l, pres, r, e, b1, b2, a, g1, g2⟩ := split_spec hc t key hi.1 hi.2
+  have ho := hi.2
+  simp only [Ordered, a] at ho
+  have o1 : Ordered rank l := by
+    simp only [Ordered]; exact (List.pairwise_append.1 (List.pairwise_append.1 ho).1).1
+  have o2 : Ordered rank r := by
+    simp only [Ordered]; exact (List.pairwise_append.1 ho).2.1
+  exact ⟨l, pres, r, e, ⟨b1, o1⟩, ⟨b2, o2⟩, a, g1, g2⟩
+
+/-- **`filter`** is `List.filter` on the enumeration (and keeps the invariant). -/
+theorem filter_refines (rank : K → Int) (f : K → V → Bool) (t : Tree K V) (hi : Inv rank t) :
+    ∃ t', filter f t = some t' ∧ Inv rank t' ∧ abs t' = (abs t).filter (fun p => f p.1 p.2) := by
+  obtain ⟨t', e, b, a⟩ := filter_spec f t hi.1
+  refine ⟨t', e, ⟨b, ?_⟩, a⟩
+  simp only [Ordered, a]
+  exact hi.2.sublist List.filter_sublist
+
+/-- **`partition`** is the pair of `List.filter`s. -/
+theorem partition_refines (rank : K → Int) (f : K → V → Bool) (t : Tree K V) (hi : Inv rank t) :
+    ∃ a b, partition f t = some (a, b) ∧ Inv rank a ∧ Inv rank b ∧
+      abs a = (abs t).filter (fun p => f p.1 p.2) ∧ abs b = (abs t).filter (fun p => !f p.1 p.2) := by
+  obtain ⟨a, b, e, b1, b2, a1, a2⟩ := partition_spec f t hi.1
+  refine ⟨a, b, e, ⟨b1, ?_⟩, ⟨b2, ?_⟩, a1, a2⟩
+  · simp only [Ordered, a1]; exact hi.2.sublist List.filter_sublist
+  · simp only [Ordered, a2]; exact hi.2.sublist List.filter_sublist
 
 end SamVerif.StdMap
 
-/-! ## Finite sets: statements the unchanged std code falsifies -/
+/-! ## Finite sets
+
+History: before the `fix:` commits cf60c34 / a34e262 / 4ba22e3 / 198f94b this section carried
+`set_max/exists/remove/diff_refines_counterexample` ({1,2}.remove(2) = {}, {1} \\ {} = {}); the
+witnesses are regression inputs in corpus/C18 now. -/
 namespace SamVerif.StdSet
 open SamVerif.StdMap (boxedCompare)
-
-/-- `Set.remove` drops a whole subtree: `{1,2}.remove(2) = {}` (finding C18-F4). -/
-theorem set_remove_refines_counterexample :
-    ∃ s : STree Int, fromList boxedCompare [1, 2] .empty = some s ∧ abs s = [1, 2] ∧
-      remove boxedCompare s 2 = some .empty :=
-  ⟨.node 2 2 (.leaf 1) .empty, by decide, by decide, by decide⟩
-
-/-- `Set.diff` with an empty subtrahend returns the empty set: `{1} \ {} = {}` (finding C18-F5). -/
-theorem set_diff_refines_counterexample :
-    diff boxedCompare (.leaf 1 : STree Int) .empty = some .empty := by decide
-
-/-- `Set.max` is not the largest element (finding C18-F1). -/
-theorem set_max_refines_counterexample :
-    ∃ s : STree Int, fromList boxedCompare [1, 2, 3, 4] .empty = some s ∧ abs s = [1, 2, 3, 4] ∧
-      max s = some 3 :=
-  ⟨.node 3 2 (.leaf 1) (.node 2 4 (.leaf 3) .empty), by decide, by decide, by decide⟩
-
-/-- `Set.exists` answers `true` on the empty set (finding C18-F2). -/
-theorem set_exists_refines_counterexample :
-    «exists» (fun _ => false) (STree.empty : STree Int) = true := by decide
 
 theorem set_size_refines {E : Type} (t : STree E) : size t = ((abs t).length : Int) := by
   induction t with
@@ -395,8 +396,6 @@ example : runIns boxedCompare (.empty : Tree Int Int) [(1, 10), (2, 20), (3, 30)
     some (.node 3 2 20 (.leaf 1 10) (.node 2 4 40 (.leaf 3 30) .empty)) := by decide
 example : Bal (.node 3 2 20 (.leaf 1 10) (.node 2 4 40 (.leaf 3 30) .empty) : Tree Int Int) := by
   simp [Bal]
-example : RightSmall (.node 2 2 20 (.leaf 1 10) (.leaf 3 30) : Tree Int Int) = true := rfl
-example : NoEmpty (.node 2 2 20 (.leaf 1 10) (.leaf 3 30) : Tree Int Int) := by simp [NoEmpty]
 example : balanced (.node 3 2 0 (.leaf 1 0) (.node 2 3 0 .empty (.leaf 4 0))) 5 0 (.empty : Tree Int Int)
     = some (.node 3 3 0 (.node 2 2 0 (.leaf 1 0) .empty) (.node 2 5 0 (.leaf 4 0) .empty)) := by decide
 end SamVerif.StdMap
